@@ -22,6 +22,18 @@ LEVEL_TEXT = {
     "C20": "Lean 4 theorems: closed recursive form of the number of attempts (one per produced item, one per exhaustion/failure, nothing re-scanned), __next__ is structurally recursive on the budget generated from the source; tie compares python's trace-event count with the specification's count; cyclic structures are python-side support (partial: stack depth and wall time are runtime).",
 }
 
+LEVEL_TEXT.update({
+    "C06": "Lean 4: the read API over the object store has no store among its results (purity by construction, said so in DESIGN), get(store_default) stores nothing when the path is found, failed pops leave the store, using a path only fills caches (SameShape), and a decide-theorem over the store table regenerated from /repo's AST on every run (only the writers store into document containers). Tie: query correspondence plus a python-side deep-snapshot oracle (identities, order, contents) around repeated read-only calls on the same document and path object.",
+    "C08": "Lean 4 frame theorems on the heap model: a non-cascading set_ either fails with the store unchanged or writes exactly one object, allocates nothing and returns a match holding v itself; characterisation of key / index / append / out-of-range / wrong-kind / other-step / root cases; histories never change the number of objects. Tie: whole object graph under canonical object numbers after every call of random histories.",
+    "C09": "Lean 4 theorem (induction over the cascade recursion): whatever the outcome, at most one pre-existing object is written (the deepest existing container), every other pre-existing object is untouched, nothing is removed, created containers are fresh empty dict/list per step kind, a fresh list only appends, wrong-type levels are never overwritten, store_default = the same cascade. Tie: object graphs of cascading histories with reused expression objects.",
+    "C10": "Lean 4 theorems: pop_match either leaves the store unchanged (nothing matched / unsupported last step / error) or returns the first match of get_match and writes exactly one object; dict and list removal are dictErase / eraseIdx; pop returns the found value or the default. Tie: object graphs of pop / pop_match / set_ histories.",
+    "C14": "Lean 4 theorems on Match handles: assignment makes the parent container hold v itself at the name and writes only that object; del / pop remove as dict / list deletion; pop returns the value it removes (needs fix F4; the stale-cache history is a checked example); missing entries give PopError or the default. Tie: histories over 1-4 live handles incl. aliases, shifted list items, matches behind filters.",
+    "C15": "Lean 4 theorems over the vertex-store model with explicit caches: extension allocates a fresh vertex and writes no existing field; the WF invariant (caches unset or equal to the function of the vertex's own chain) is preserved by extension, rendering and path_as_list; rendering = pure function of the chain whatever the history; equivalent spellings (attr vs item via the generated reserved-name table, wc/wildcard, gwc/generic_wildcard, rec/recursive, dash rewriting, .gwc vs [gwc]). Tie: renderings and selections of random derivation DAGs.",
+    "C16": "Lean 4 theorems: for supported steps next() raises only TraversingError-wrapping-the-cause or InfiniteLoopDetected (induction over the budget, per-vertex abort analysis), get_match adds only (Nested)MatchNotFoundError, vertex.set fails only with SetError, root set/pop give SetError/PopError (fix F3), unsupported indices give PathSyntaxError (fix F6), decide-theorem over the exception MRO table regenerated from the source. Tie: exception class chains in all families; python-side oracle for escaping exceptions and str()/repr() stability.",
+    "C18": "Lean 4 (thin: definitional unfoldings of a small descriptor model, stated as such): set = setter after to_json_value without cascade (+ C08 frame), del = pop, typed attributes alias the selected node, iterator-typed assignment = SetError, pprop/mprop. The correspondence (histories over random declarations, typed chains, list views) carries the weight; one known finding (F5).",
+    "C19": "Lean 4 theorem keep_all_is_filter: the in-place compaction loop with a live index iterator over the list it writes computes exactly filter-then-map (loop invariant write <= read, proved for all lists and predicates); remove_all; every operation writes only the document's own list object; reads / writes are the plain-list operations with the converters at the boundary. Tie: histories of view operations incl. live iterators interleaved with mutations.",
+})
+
 NOT_YET = {
 }
 
